@@ -42,7 +42,7 @@ man = {
                  "serves_properties": sorted(CHECKS),
                  "kind_free_text": "runtime monitoring: seeded/exhaustive workloads drive the real code from /repo while oracles (snapshot diff, reference models in models/, audit-hook file-system recorder, controlled thread scheduler) observe every execution"}],
     "checks": checks,
-    "notes": "Exit 0 held / 1 violation (VIOLATION line + replay file) / 2 inconclusive. Known findings: known_findings.json. See DESIGN.md.",
+    "notes": "Exit 0 held / 1 violation (VIOLATION line + replay file) / 2 inconclusive. Known findings: known_findings.json. Every check spreads its cases over 8-16 fresh worker interpreters that differ in PYTHONHASHSEED and in process environment (default / ASCII locale / ASCII-only stdout / time zone UTC+9; C06 and C13 also warnings-as-errors); the evidence lists them under worker-environments. See DESIGN.md (section 10 = as built).",
     "not_applicable": na,
 }
 json.dump(man, open(os.path.join(HERE, "MANIFEST.json"), "w"), indent=1)
